@@ -9,7 +9,8 @@ use bp7::eid::{EndpointID, IpnAddress};
 use bp7::primary::PrimaryBlock;
 use std::time::Duration;
 
-const PIECES: [&str; 29] = [
+const PIECES: [&str; 30] = [
+    "\u{0}",
     "a", "b", "node", "n1", "0", "1", "9", "-", ":", "%", "~", ".", "_", "ü", "é", "€", "\u{10348}", "x/y", "svc", "in", "A", " ", "+", "none",
     "\"", "\\", "\n", "\u{7f}", "\u{1}",
 ];
@@ -38,7 +39,9 @@ pub fn gen_eid_wf(rng: &mut Rng) -> EndpointID {
         _ => {
             let empty_ok = rng.chance(1, 6);
             let node = if empty_ok && rng.chance(1, 2) { String::new() } else { gen_name(rng, false, empty_ok) };
-            let svc = match rng.below(6) { 0 => String::new(), 1 => format!("~{}", gen_name(rng, true, false)), _ => gen_name(rng, true, false) };
+            let mut svc = match rng.below(6) { 0 => String::new(), 1 => format!("~{}", gen_name(rng, true, false)), _ => gen_name(rng, true, false) };
+            // names that END in something a lenient reader would trim: NUL, white space, a byte-order mark, a slash
+            if rng.chance(1, 12) { svc.push(*rng.pick(&['\u{0}', ' ', '\t', '\n', '\u{a0}', '\u{feff}', '/'])); if rng.chance(1, 3) { svc.push('\u{0}'); } }
             EndpointID::Dtn(1, dtn_address(format!("//{}/{}", node, svc).as_bytes()).unwrap())
         }
     }
